@@ -335,7 +335,7 @@ func vlHistory(t *testing.T, enc *json.Encoder, hist int, rng *rand.Rand, nblock
 					c = 0
 				}
 				dst := owners[rng.Intn(len(owners))].addr
-				if rng.Intn(12) == 0 {
+				if rng.Intn(6) == 0 {
 					dst = cipher.Address{} // the hard rules allow an output to the null address (it can never be spent)
 				}
 				txn.Out = append(txn.Out, coin.TransactionOutput{Address: dst, Coins: c, Hours: hh})
